@@ -760,3 +760,208 @@ pub fn c06_deep_chain_case(ctx: &Ctx, env: &RealEnv, dir: &Path, case: u64, seed
         rep.nontrivial.insert(fnv(b"chain") ^ depth as u64);
     }
 }
+
+// ------------------------------------------------------------------------
+// C08 through the real binary: names that are not valid UTF-8
+
+fn os(b: &[u8]) -> &std::ffi::OsStr {
+    use std::os::unix::ffi::OsStrExt;
+    std::ffi::OsStr::from_bytes(b)
+}
+
+/// C08: what was recorded for a step is what is loaded for it, whatever bytes its file names are made of
+/// (Latin-1 names in old source trees, arbitrary bytes above 0x7f), across manifest rewrites that leave
+/// the step alone.  Commands are plain shell; every run appends the step's id to `runlog`.
+pub fn c08_rawname_case(ctx: &Ctx, env: &RealEnv, dir: &Path, case: u64, seed: u64, rep: &mut Report) {
+    let _ = ctx;
+    let mut rng = Rng::new(seed);
+    clear_dir(dir);
+    let out_names: [&[u8]; 8] = [b"plain.out", b"caf\xe9.out", b"reykjav\xc3\xadk.out", b"x\xff\xfey.o", b"\x80.o", b"d\xe9p/na\xefve.o", b"sub/\xe4\xf6\xfc.o", b"ascii_only.o"];
+    let hdr_names: [&[u8]; 4] = [b"t\xeate.h", b"plain.h", b"h\xc3\xa9.h", b"inc/\xff.h"];
+    let n = rng.range(2, 5);
+    let mut picks: Vec<usize> = (0..out_names.len()).collect();
+    rng.shuffle(&mut picks);
+    struct S {
+        out: Vec<u8>,
+        src: String,
+        dep_on: Option<usize>,
+        hdr: Option<Vec<u8>>,
+    }
+    let mut steps: Vec<S> = Vec::new();
+    for i in 0..n {
+        let dep_on = if i > 0 && rng.chance(1, 2) { Some(rng.below(i)) } else { None };
+        let hdr = if rng.chance(1, 2) { Some(rng.pick(&hdr_names[..]).to_vec()) } else { None };
+        steps.push(S { out: out_names[picks[i]].to_vec(), src: format!("src{}.in", i), dep_on, hdr });
+    }
+    let write = |name: &[u8], content: &[u8]| {
+        let p = dir.join(os(name));
+        if let Some(parent) = p.parent() {
+            let _ = std::fs::create_dir_all(parent);
+        }
+        std::fs::write(&p, content).unwrap();
+    };
+    for s in &steps {
+        write(s.src.as_bytes(), s.src.as_bytes());
+        if let Some(h) = &s.hdr {
+            write(h, b"h");
+        }
+    }
+    let octal = |b: &[u8]| -> Vec<u8> {
+        let mut v = Vec::new();
+        for &c in b {
+            if c >= 0x80 {
+                v.extend_from_slice(format!("\\{:03o}", c).as_bytes());
+            } else {
+                v.push(c);
+            }
+        }
+        v
+    };
+    // manifest text: `order` permutes the statements, `prefix` renames the rules, `extra` adds a new step
+    let render = |order: &[usize], prefix: &str, comment: bool, extra: bool| -> Vec<u8> {
+        let mut m: Vec<u8> = Vec::new();
+        if comment {
+            m.extend_from_slice(b"# rewritten\n");
+        }
+        for &i in order {
+            let s = &steps[i];
+            m.extend_from_slice(format!("rule {}r{}\n  command = echo s{} >> runlog; cat $in > $out", prefix, i, i).as_bytes());
+            if let Some(h) = &s.hdr {
+                m.extend_from_slice(b"; printf '$out: ");
+                m.extend_from_slice(&octal(h));
+                m.extend_from_slice(b"\\n' > $out.d\n  depfile = $out.d");
+            }
+            m.extend_from_slice(b"\nbuild ");
+            m.extend_from_slice(&s.out);
+            m.extend_from_slice(format!(": {}r{} {}", prefix, i, s.src).as_bytes());
+            if let Some(d) = s.dep_on {
+                m.push(b' ');
+                m.extend_from_slice(&steps[d].out);
+            }
+            m.push(b'\n');
+            if comment {
+                m.extend_from_slice(b"# between\n");
+            }
+        }
+        if extra {
+            m.extend_from_slice(b"rule extra_r\n  command = echo extra >> runlog; cat $in > $out\nbuild extra.out: extra_r src0.in\n");
+        }
+        m
+    };
+    let mut order: Vec<usize> = (0..n).collect();
+    let runlog = || -> Vec<String> { std::fs::read_to_string(dir.join("runlog")).unwrap_or_default().lines().map(|l| l.to_string()).collect() };
+    let w = crate::sim::World::new(dir.to_path_buf(), Project { manifest: "build.ninja".into(), ..Default::default() });
+    let inv = RInv { j: Some(*rng.pick(&[1usize, 4])), timeout_s: 60, ..Default::default() };
+    let downstream = |roots: &[usize]| -> BTreeSet<String> {
+        let mut set: BTreeSet<usize> = roots.iter().copied().collect();
+        loop {
+            let before = set.len();
+            for (i, s) in steps.iter().enumerate() {
+                if let Some(d) = s.dep_on {
+                    if set.contains(&d) {
+                        set.insert(i);
+                    }
+                }
+            }
+            if set.len() == before {
+                break;
+            }
+        }
+        set.iter().map(|i| format!("s{}", i)).collect()
+    };
+    let mut history: Vec<String> = Vec::new();
+    let mut manifest = render(&order, "", false, false);
+    let mut extra_present = false;
+    let nbuilds = rng.range(3, 5);
+    let mut expected: BTreeSet<String> = (0..n).map(|i| format!("s{}", i)).collect();
+    let mut stamp = 0u64;
+    for b in 0..nbuilds {
+        std::fs::write(dir.join("build.ninja"), &manifest).unwrap();
+        let before = runlog().len();
+        let out = run_real(env, &w, &inv);
+        rep.evaluations += 1;
+        let ran: Vec<String> = runlog()[before.min(runlog().len())..].to_vec();
+        let ran_set: BTreeSet<String> = ran.iter().cloned().collect();
+        let so = String::from_utf8_lossy(&out.stdout).into_owned();
+        history.push(format!("build {}: exit {:?}, ran {:?}", b, out.exit, ran));
+        let mk = || J::obj().with("case", J::i(case)).with("manifest", J::bytes(&manifest)).with("history", J::strs(history.iter().cloned())).with("stdout", J::s(so.chars().take(800).collect::<String>())).with("stderr", J::bytes(&out.stderr[..out.stderr.len().min(600)]));
+        if let Some(tool) = sanitizer_report(&out) {
+            rep.violation(&format!("sanitizer-report:{}", tool), &String::from_utf8_lossy(&out.stderr).chars().take(1500).collect::<String>(), mk());
+            return;
+        }
+        if out.timed_out {
+            rep.inconclusive.push(format!("case {}: timeout", case));
+            return;
+        }
+        if out.exit != Some(0) {
+            let se = String::from_utf8_lossy(&out.stderr);
+            let sig = if se.contains("panicked") { "rawname-panic" } else { "rawname-build-failed" };
+            rep.violation(sig, &format!("build {} of a tree with non-UTF-8 names ended {:?}/{:?}", b, out.exit, out.signal), mk());
+            return;
+        }
+        if ran.len() != ran_set.len() {
+            rep.violation("rawname-ran-twice", &format!("a command ran twice in one invocation: {:?}", ran), mk());
+            return;
+        }
+        if ran_set != expected {
+            let sig = if ran_set.is_superset(&expected) { "rawname-ran-unchanged-step" } else { "rawname-skipped-dirty-step" };
+            rep.violation(sig, &format!("build {}: ran {:?}, expected {:?}", b, ran_set, expected), mk());
+            return;
+        }
+        if expected.is_empty() && !so.contains("no work to do") {
+            rep.violation("rawname-noop-not-reported", &format!("nothing ran but n2 says {:?}", so), mk());
+        }
+        rep.count("rawname_builds_checked", 1);
+        // next: nothing / manifest rewrite / source edit / header edit
+        expected = BTreeSet::new();
+        match rng.below(4) {
+            0 => history.push("no change".into()),
+            1 => {
+                rng.shuffle(&mut order);
+                let add = !extra_present && rng.chance(1, 2);
+                if add {
+                    extra_present = true;
+                    expected.insert("extra".into());
+                }
+                manifest = render(&order, &format!("p{}_", b), rng.chance(1, 2), extra_present);
+                history.push(format!("manifest rewritten: order {:?}, rules renamed{}", order, if add { ", new step extra" } else { "" }));
+            }
+            2 => {
+                let k = rng.below(n);
+                stamp += 1;
+                let p = dir.join(&steps[k].src);
+                std::fs::write(&p, format!("{} v{}", steps[k].src, stamp)).unwrap();
+                let f = std::fs::File::options().write(true).open(&p).unwrap();
+                let _ = f.set_modified(std::time::SystemTime::now() + std::time::Duration::from_secs(stamp * 3));
+                expected = downstream(&[k]);
+                if k == 0 && extra_present {
+                    expected.insert("extra".into());
+                }
+                history.push(format!("source {} modified", steps[k].src));
+            }
+            _ => {
+                let with_hdr: Vec<usize> = (0..n).filter(|&i| steps[i].hdr.is_some()).collect();
+                if with_hdr.is_empty() {
+                    history.push("no change".into());
+                } else {
+                    let k = *rng.pick(&with_hdr);
+                    let h = steps[k].hdr.clone().unwrap();
+                    stamp += 1;
+                    let p = dir.join(os(&h));
+                    std::fs::write(&p, format!("h{}", stamp)).unwrap();
+                    let f = std::fs::File::options().write(true).open(&p).unwrap();
+                    let _ = f.set_modified(std::time::SystemTime::now() + std::time::Duration::from_secs(stamp * 3));
+                    // every step that reported this header
+                    let roots: Vec<usize> = (0..n).filter(|&i| steps[i].hdr.as_ref() == Some(&h)).collect();
+                    expected = downstream(&roots);
+                    history.push(format!("header {:?} modified", String::from_utf8_lossy(&h)));
+                }
+            }
+        }
+    }
+    if steps.iter().any(|s| std::str::from_utf8(&s.out).is_err() || s.hdr.as_ref().map(|h| std::str::from_utf8(h).is_err()).unwrap_or(false)) {
+        rep.nontrivial.insert(fnv(&manifest) ^ seed);
+        rep.count("rawname_histories_with_invalid_utf8", 1);
+        rep.sample(|| J::obj().with("case", J::i(case)).with("history", J::strs(history.iter().cloned())));
+    }
+}
